@@ -214,6 +214,7 @@ def r3_product_types(ctx):
         """a value-dependent element type: instances are the `bound` values whose payload equals `p`"""
 
         bound, p = "int", 0
+        keyable_type, exclusive_type, bound_is_name = True, False, False
 
         def __repr__(self):
             return "Literal[0]"
@@ -476,8 +477,14 @@ def r15_combinator_checks_by_value(ctx):
             return f"{self.cls}({self.val!r})"
 
     class Dep:
+        # the flags every value-dependent type of the package carries (a Literal-like one: keyed by its values)
+        keyable_type = True
+        exclusive_type = False
+        bound_is_name = False
+
         def __init__(self, bound, p):
             self.bound, self.p = bound, p
+            self.parameters = self.__args__ = (p,)
 
         def __repr__(self):
             return f"Dependent[{self.bound}, == {self.p!r}]"
